@@ -18,6 +18,7 @@ struct GEdge {
     unsigned i, j;
     long long x;
     bool remove = false; // `op r i j`: removeEdge(i, j) at this point of the construction (graphs with a removal history)
+    bool force = false;  // `op f i j x`: addEdge(..., force=true): a duplicate entry in the neighbour lists (labelled classes)
 };
 
 struct GSpec {
@@ -95,6 +96,11 @@ inline GSpec parseGSpec(const Case &c, bool directed) {
     for (const Op &op : c.ops) {
         if (op.kind == "e" && s.n > 0)
             s.edges.push_back(GEdge{(unsigned)(op.u(0) % s.n), (unsigned)(op.u(1) % s.n), op.i(2)});
+        if (op.kind == "f" && s.n > 0) {
+            GEdge f{(unsigned)(op.u(0) % s.n), (unsigned)(op.u(1) % s.n), op.i(2)};
+            f.force = true;
+            s.edges.push_back(f);
+        }
         if (op.kind == "r" && s.n > 0) {
             GEdge r{(unsigned)(op.u(0) % s.n), (unsigned)(op.u(1) % s.n), 0};
             r.remove = true;
@@ -118,6 +124,10 @@ inline double weightOf(long long x, const std::string &mode) {
         return (double)(x % 17);
     if (mode == "frac")
         return (double)(x % 4096) / 8.0;
+    if (mode == "tiny") // all weights and path sums far below machine epsilon, still exactly representable
+        return std::ldexp((double)(x % 17), -60);
+    if (mode == "huge")
+        return std::ldexp((double)(x % 17), 40);
     return (double)(x % 17);
 }
 
@@ -145,6 +155,12 @@ void buildGraph(const GSpec &s, const std::string &wmode, G &g, Model &m) {
         }
         if constexpr (T::fam == 'L') {
             long long lab = T::nolabel ? 0 : x % LABEL_K;
+            if (e.force && present) {
+                g.addEdge(e.i, e.j, LabelCodec<typename T::Label>::mk((int)lab), true);
+                m.e[k].copies++;
+                m.e[k].k = lab;
+                continue;
+            }
             g.addEdge(e.i, e.j, LabelCodec<typename T::Label>::mk((int)lab));
             if (!present) {
                 MVal v;
